@@ -316,7 +316,13 @@ func visitInstr(fr *frame, instr ssa.Instruction) continuation {
 		})
 
 	case *ssa.MakeChan:
-		fr.env[instr] = make(chan value, asInt64(fr.get(instr.Size)))
+		// sequential model: an unbuffered channel gets capacity 1 so that a goroutine run to completion
+		// can hand its result to a thread that receives later (rendezvous is not modelled)
+		sz := asInt64(fr.get(instr.Size))
+		if sz == 0 {
+			sz = 1
+		}
+		fr.env[instr] = make(chan value, sz)
 
 	case *ssa.Alloc:
 		var addr *value
